@@ -78,7 +78,8 @@ def generate(tier, rng):
         bs = tlc_generate("Gen_Track.tla", write_cfg("Gen_Track_%s%s%s%d.cfg" % (pa, pb, pc, depth), base), "sim",
                           num=num if not (pa or pb or pc) else num // 3, depth=17, timeout=1500, tag="c12g")
         for b in bs[:num * 2]:
-            scen.append({"persistA": pa, "persistB": pb, "persistC": pc, "depth": depth, "src": "tlc-sim", "steps": b})
+            # (every third history runs with track B as a transparent spatial track: the statement does not tell the kinds apart)
+            scen.append({"persistA": pa, "persistB": pb, "persistC": pc, "depth": depth, "spatialB": len(scen) % 3 == 2, "src": "tlc-sim", "steps": b})
     # seeded random with the same domain restrictions (pause only when running, resume only when paused)
     for k in range(60 if tier == "quick" else 2000):
         steps = []
@@ -116,7 +117,7 @@ def generate(tier, rng):
             else:
                 steps.append({"act": "Stop", "s": rng.choice(["S" + t for t in tracks])})
         steps += [{"act": "Callback"}] * 4
-        scen.append({"persistA": rng.random() < 0.3, "persistB": rng.random() < 0.3, "persistC": depth == 3 and rng.random() < 0.3,
+        scen.append({"spatialB": rng.random() < 0.3, "persistA": rng.random() < 0.3, "persistB": rng.random() < 0.3, "persistC": depth == 3 and rng.random() < 0.3,
                      "depth": depth, "src": "random", "steps": steps})
     return scen
 
@@ -163,7 +164,7 @@ def run(tier):
     res.evaluations = len(scen)
     for sc in scen:
         if any(s["act"] != "Callback" for s in sc["steps"]):
-            res.distinct.add(behaviour_hash([sc["persistA"], sc["persistB"], sc.get("persistC"), sc.get("depth"), [(s["act"], s.get("t"), s.get("c"), s.get("d"), s.get("wk"), s.get("wt"), s.get("s")) for s in sc["steps"]]]))
+            res.distinct.add(behaviour_hash([sc["persistA"], sc["persistB"], sc.get("persistC"), sc.get("depth"), sc.get("spatialB"), [(s["act"], s.get("t"), s.get("c"), s.get("d"), s.get("wk"), s.get("wt"), s.get("s")) for s in sc["steps"]]]))
     res.samples = [{"persistA": s["persistA"], "persistB": s["persistB"], "src": s["src"],
                     "steps": [[x["act"], x.get("t") or x.get("s"), x.get("c"), x.get("d"), x.get("wk"), x.get("wt")] for x in s["steps"]][:24]}
                    for s in scen[:1] + scen[-1:]]
